@@ -334,8 +334,8 @@ func c16Siblings(c *Ctx) {
 	if a == nil || b == nil {
 		return
 	}
-	sa := w.callShapes(a, "ParseAddrSpec", "ParseNameAddr", "ParseGenericParam", "strings.Split")
-	sb := w.callShapes(b, "ParseAddrSpec", "ParseNameAddr", "ParseGenericParam", "strings.Split")
+	sa := w.callShapes(a, "ParseAddrSpec", "ParseNameAddr", "ParseGenericParam", "strings.Split", "splitUnquoted")
+	sb := w.callShapes(b, "ParseAddrSpec", "ParseNameAddr", "ParseGenericParam", "strings.Split", "splitUnquoted")
 	same := len(sa) == len(sb) && len(sa) >= 4
 	for i := range sa {
 		if i < len(sb) && sa[i] != sb[i] {
